@@ -184,6 +184,9 @@ def decodeLoop (root : Array Decode) (fuel : Nat) (map : Array Decode) (chunks :
       | .further t => decodeLoop root fuel t chunks (pending % 2 ^ (bits - 8)) (bits - 8) acc
 
 def decodeRange (c : Code) (bytes : List Nat) (lo hi : Nat) : Option (List Nat) :=
+  -- `self.bytes[self.bit_range.0 / 8]` beyond the store is a panic (the decoder consumes every chunk or
+  -- panics earlier), so `bitChunks`' `bytes[_]!` is only ever evaluated in bounds
+  if lo < hi ∧ 8 * bytes.length < hi then none else
   match bitChunks bytes (hi - lo + 2) lo hi with
   | [] => decodeLoop c.decode (hi - lo + 2) c.decode [] 0 0 []
   | (b, n) :: rest => decodeLoop c.decode (2 * (hi - lo) + 4) c.decode rest b n []
